@@ -42,7 +42,17 @@ const (
 
 func genC10Req(t *rapid.T) C10Req {
 	r := C10Req{}
-	switch rapid.IntRange(0, 10).Draw(t, "kind") {
+	switch rapid.IntRange(0, 13).Draw(t, "kind") {
+	case 13:
+		// tail-side pruning between two requests: what was served (and cached) before must not be served after
+		r.Kind = "prune"
+		r.HashAt = rapid.IntRange(1, 3).Draw(t, "prunek")
+	case 11, 12:
+		// hash of one of the first four headers of the initial store, pruned or not by now
+		r.Kind = "hash"
+		r.HashSel = 7
+		r.HashAt = rapid.IntRange(0, 3).Draw(t, "hashat0")
+		r.AmountSel = rapid.IntRange(0, c10AmountSels-1).Draw(t, "amount")
 	case 10:
 		r.Kind = "stall"
 		r.OriginSel = rapid.IntRange(0, c10OriginSels-1).Draw(t, "origin")
@@ -232,7 +242,7 @@ func c10Judge(chain *vh.Chain, tail, head uint64, pb *p2p_pb.HeaderRequest, resp
 	return "", false
 }
 
-func (r C10Req) build(chain *vh.Chain, tail, head uint64) (*p2p_pb.HeaderRequest, []byte, bool) {
+func (r C10Req) build(chain *vh.Chain, tail0, tail, head uint64) (*p2p_pb.HeaderRequest, []byte, bool) {
 	boundary := false
 	switch r.Kind {
 	case "origin":
@@ -260,6 +270,10 @@ func (r C10Req) build(chain *vh.Chain, tail, head uint64) (*p2p_pb.HeaderRequest
 			boundary = true
 		case 5:
 			h = append(append([]byte{}, chain.At(tail+uint64(r.HashAt)%(head-tail+1)).Hash()...), 0)
+		case 7:
+			at := min(tail0+uint64(r.HashAt), head)
+			h = chain.At(at).Hash()
+			boundary = at < tail
 		default:
 			h = nil // gogo does not put a nil oneof value on the wire: the request arrives without data
 		}
@@ -303,17 +317,33 @@ func runC10(t *testing.T, s C10Scenario) (res Result) {
 			res.failf("HARNESS: connect: %v", err)
 			return
 		}
-		nBoundary := 0
+		nBoundary, nPruned := 0, 0
+		tail := s.Tail
 		for i, r := range s.Reqs {
-			pb, raw, boundary := r.build(chain, s.Tail, head)
-			if boundary && s.Tail > 1 {
+			if r.Kind == "prune" {
+				to := min(tail+uint64(max(r.HashAt, 1)), head) // keeps the head
+				if to > tail {
+					ctx, cancel := vctx(30 * time.Second)
+					err := st.DeleteRange(ctx, tail, to)
+					cancel()
+					if err != nil {
+						res.failf("HARNESS: step #%d: DeleteRange(%d, %d): %v", i, tail, to, err)
+						return
+					}
+					tail = to
+					nPruned++
+				}
+				continue
+			}
+			pb, raw, boundary := r.build(chain, s.Tail, tail, head)
+			if boundary && tail > 1 {
 				nBoundary++
 			}
 			rec.take()
 			if r.Kind == "stall" {
 				// the client sends a few bytes of a valid request (possibly none) and then nothing, keeping its
 				// side open: the server must give up by its read deadline
-				full := &p2p_pb.HeaderRequest{Data: &p2p_pb.HeaderRequest_Origin{Origin: c10Origin(r.OriginSel, s.Tail, head)}, Amount: c10Amount(r.AmountSel)}
+				full := &p2p_pb.HeaderRequest{Data: &p2p_pb.HeaderRequest_Origin{Origin: c10Origin(r.OriginSel, tail, head)}, Amount: c10Amount(r.AmountSel)}
 				body, _ := full.Marshal()
 				framed := append(binary.AppendUvarint(nil, uint64(len(body))), body...)
 				cut := min(r.HashAt, len(framed)-1)
@@ -351,15 +381,18 @@ func runC10(t *testing.T, s C10Scenario) (res Result) {
 			if os.Getenv("VERIF_C10_DEBUG") != "" {
 				fmt.Printf("DBG request #%d elapsed=%v frames=%d end=%q\n", i, resp.Elapsed, len(resp.Frames), resp.EndErr)
 			}
-			v, _ := c10Judge(chain, s.Tail, head, judged, resp, rec.take())
+			v, _ := c10Judge(chain, tail, head, judged, resp, rec.take())
 			if v != "" {
-				res.failf("request #%d %+v: %s", i, r, v)
-				res.Obs = map[string]any{"tail": s.Tail, "head": head, "frames": len(resp.Frames), "end": resp.EndErr, "elapsed": resp.Elapsed.String()}
+				res.failf("request #%d %+v (store [%d,%d], initially [%d,%d]): %s", i, r, tail, head, s.Tail, head, v)
+				res.Obs = map[string]any{"tail": tail, "head": head, "frames": len(resp.Frames), "end": resp.EndErr, "elapsed": resp.Elapsed.String()}
 				return
 			}
 		}
 		res.NonTrivial = nBoundary > 0
-		res.label(fmt.Sprintf("tail_above_1=%v", s.Tail > 1))
+		res.label(fmt.Sprintf("tail_above_1=%v", tail > 1))
+		if nPruned > 0 {
+			res.label("pruned_between_requests")
+		}
 		if nBoundary > 0 {
 			res.label("boundary_request_on_pruned_store")
 		}
